@@ -197,7 +197,7 @@ impl AppScript {
     }
 }
 
-type Script = Arc<Mutex<AppScript>>;
+pub type Script = Arc<Mutex<AppScript>>;
 
 fn req_err(s: &str) -> Result<(), RequestError> {
     match s {
@@ -207,9 +207,9 @@ fn req_err(s: &str) -> Result<(), RequestError> {
     }
 }
 
-struct App {
-    rec: Recorder,
-    script: Script,
+pub struct App {
+    pub rec: Recorder,
+    pub script: Script,
 }
 
 impl OutstationApplication for App {
@@ -316,8 +316,8 @@ impl OutstationApplication for App {
     }
 }
 
-struct Info {
-    rec: Recorder,
+pub struct Info {
+    pub rec: Recorder,
 }
 
 fn sq(s: Sequence) -> i64 {
@@ -378,9 +378,9 @@ impl OutstationInformation for Info {
     }
 }
 
-struct Ctl {
-    rec: Recorder,
-    script: Script,
+pub struct Ctl {
+    pub rec: Recorder,
+    pub script: Script,
 }
 
 impl Ctl {
@@ -472,7 +472,7 @@ fn ev_class(c: u8) -> Option<EventClass> {
     }
 }
 
-fn add_point(db: &mut Database, p: &PointCfg) -> bool {
+pub fn add_point(db: &mut Database, p: &PointCfg) -> bool {
     let cls = ev_class(p.cls);
     match p.ty.as_str() {
         "bi" => {
@@ -631,7 +631,7 @@ fn os_bytes(v: &Value) -> Vec<u8> {
     vec![fill; len]
 }
 
-fn do_update(db: &mut Database, u: &Value) -> UpdateInfo {
+pub fn do_update(db: &mut Database, u: &Value) -> UpdateInfo {
     let ty = u["ty"].as_str().unwrap_or("");
     let ix = u["ix"].as_u64().unwrap_or(0) as u16;
     let fl = Flags::new(u["fl"].as_u64().unwrap_or(1) as u8);
@@ -695,7 +695,7 @@ fn do_update(db: &mut Database, u: &Value) -> UpdateInfo {
     }
 }
 
-fn info_json(i: UpdateInfo) -> Value {
+pub fn info_json(i: UpdateInfo) -> Value {
     match i {
         UpdateInfo::NoPoint => json!("nopoint"),
         UpdateInfo::NoEvent => json!("noevent"),
@@ -704,7 +704,7 @@ fn info_json(i: UpdateInfo) -> Value {
     }
 }
 
-fn make_config(cfg: &OstCfg) -> OutstationConfig {
+pub fn make_config(cfg: &OstCfg) -> OutstationConfig {
     let e = &cfg.evmax;
     let g = |i: usize| e.get(i).copied().unwrap_or(0);
     let mut c = OutstationConfig::new(
